@@ -29,10 +29,18 @@ def run(rep):
         rep.sample({"rows": o["shapes"], "survey_sheet": o["wb"]["sheets"][0], "trace_events": len(o["trace"]), "outcome": o["res"]["status"]})
     _rp.run_canaries(rep, PROP, sub, acc)
     _rp.suite_part(rep, PROP)
+    # the per-type decision table of the parameters cell (TypeParams.tla), this property's clauses
+    from harness.props import _typeparams
+
+    _typeparams.run(rep, PROP)
 
 
 def replay(rep, case):
     c = case["case"]
+    if c.get("typeparams"):
+        from harness.props import _typeparams
+
+        return _typeparams.replay(rep, PROP, c)
     if "suite_test" in c:
         outs = corpus.run_forms([{"wb": c["wb"], "fmt": "dict", "shapes": ["suite"], "tag": {"suite_test": c["suite_test"]}}])
         sub, acc, rejected = _rp.validate(rep, PROP, outs, "replay")
